@@ -111,7 +111,7 @@ def all_semi_directed_paths(G, source: Node, target: Node, cutoff: int = None):
        Addison Wesley Professional, 3rd ed., 2001.
     """
     if source not in G:
-        raise nx.NodeNotFound("source node %s not in graph" % source)
+        raise nx.NodeNotFound("source node %s not in graph" % (source,))
     if target in G:
         targets = {target}
     else:
